@@ -91,32 +91,35 @@ var (
 	x03PcVia  = map[uintptr]int{}
 )
 
-func x03Calibrate(t *testing.T) {
+func x03Calibrate(t *testing.T) (ok bool) {
 	if len(x03PcLeaf) > 0 {
-		return
+		return true
 	}
+	defer func() {
+		if !ok {
+			x03PcLeaf, x03PcVia = map[uintptr]int{}, map[uintptr]int{}
+		}
+	}()
 	var cf file
 	for l := 1; l <= len(x03Leaves); l++ {
 		for v := 1; v <= len(x03Vias); v++ {
 			sc := &StackCounter{name: "cal", depth: 2, file: &cf}
 			x03Call(sc, l, v)
 			if len(sc.stacks) != 1 || len(sc.stacks[0].pcs) != 2 {
-				t.Fatalf("calibration: site %d/%d gave %d stacks", l, v, len(sc.stacks))
+				return false
 			}
 			p := sc.stacks[0].pcs
 			if old, ok := x03PcLeaf[p[0]]; ok && old != l {
-				t.Fatalf("calibration: leaf pcs collide")
+				return false
 			}
 			if old, ok := x03PcVia[p[1]]; ok && old != v {
-				t.Fatalf("calibration: via pcs collide")
+				return false
 			}
 			x03PcLeaf[p[0]] = l
 			x03PcVia[p[1]] = v
 		}
 	}
-	if len(x03PcLeaf) != len(x03Leaves) || len(x03PcVia) != len(x03Vias) {
-		t.Fatalf("calibration: %d leaf pcs, %d via pcs", len(x03PcLeaf), len(x03PcVia))
-	}
+	return len(x03PcLeaf) == len(x03Leaves) && len(x03PcVia) == len(x03Vias)
 }
 
 type x03Region struct {
@@ -502,7 +505,12 @@ func TestVerifX03Stack(t *testing.T) {
 	if err := rt.In(&in); err != nil {
 		t.Skip(err)
 	}
-	x03Calibrate(t)
+	if !x03Calibrate(t) {
+		// one Inc from each call site of a fresh depth-2 stack counter did not leave exactly one
+		// remembered stack of two program counters per site: reported, not a harness failure
+		rt.Out(rt.M{"kind": "calfail"})
+		return
+	}
 	for i := range in.Runs {
 		x03One(t, &in.Runs[i])
 	}
